@@ -5,6 +5,7 @@
 package probe
 
 import (
+	"sync/atomic"
 	"fmt"
 	"math"
 	"sort"
@@ -141,6 +142,17 @@ type Sig struct {
 	RaiseAtRec int
 	Raised     bool
 	AfterRaise int
+}
+
+// NilSig is a signal type whose method works on a nil receiver (its state lives in a package variable): hosts
+// may hand the interpreters (*NilSig)(nil). NilSigFireAt / NilSigPolls are reset by the test before each run.
+type NilSig struct{ _ int }
+
+var NilSigFireAt, NilSigPolls int64
+
+func (s *NilSig) ExitSignal() bool {
+	n := atomic.AddInt64(&NilSigPolls, 1)
+	return NilSigFireAt > 0 && n >= NilSigFireAt
 }
 
 type abortRun struct{}
